@@ -239,6 +239,10 @@ def _is_score_sum_key(g: Func, key, scores: str) -> bool:
     if isinstance(key, ast.Name) and key.id in g.nested:
         h = g.nested[key.id]
         body = [st for st in h.node.body if not (isinstance(st, ast.Expr) and isinstance(st.value, ast.Constant))]
+        if len(body) == 1 and isinstance(body[0], ast.Return) and len(h.params) == 1:
+            # def score_sum(indices): return sum(scores[i] for i in indices)     (also what the accumulator loop normalises to)
+            lam = ast.Lambda(args=h.node.args, body=body[0].value)
+            return _is_score_sum_key(g, lam, scores)
         if len(body) == 3 and isinstance(body[0], ast.Assign) and isinstance(body[0].targets[0], ast.Name) and const_value(body[0].value) == 0 \
                 and isinstance(body[1], ast.For) and len(h.params) == 1 and src(body[1].iter) == h.params[0] and len(body[1].body) == 1 \
                 and isinstance(body[2], ast.Return) and src(body[2].value) == body[0].targets[0].id:
